@@ -327,7 +327,7 @@ pub fn plan(prop: &'static str, tier: Tier, seed: u64) -> Vec<Campaign> {
         "C08" => ("concurrent", 3000),
         _ => ("mutation_attempts", 4000),
     };
-    vec![Campaign {
+    let mut v = vec![Campaign {
         name,
         budget: match tier { Tier::Quick => Budget::Count(quick), Tier::Thorough => Budget::Time(1) },
         exhaustive: false,
@@ -337,5 +337,9 @@ pub fn plan(prop: &'static str, tier: Tier, seed: u64) -> Vec<Campaign> {
             "C08" => c08_scenario(seed, i),
             _ => c13_scenario(seed, i),
         }),
-    }]
+    }];
+    if prop == "C09" {
+        v.push(Campaign { name: "large_files", budget: Budget::Count(match tier { Tier::Quick => 32, Tier::Thorough => 300 }), exhaustive: false, gen: Box::new(move |i| super::c02::large_scenario("C09", seed, i)) });
+    }
+    v
 }
